@@ -45,4 +45,14 @@ PROPS = {
         "open_statements": ["for every subset S of the flag members: irDIFlags(split(diFlagsString(OR S))) = OR S (induction over the bit list) -- currently sampled by the flag_set oracle (random subsets, all singletons and pairs)"],
         "explanation": "finite theorem over regenerated tables; the bound is the table",
     },
+    "C09": {
+        "targets": ["Properties/C09.vo"],
+        "level_text": "proof: for every width other than 1, every integer and every decimal-versus-hex choice function, the literal Ident produces parses back to exactly the value (so retuning the entropy heuristic cannot break it); i1 on {0,1}; u0x denotes the hexadecimal value, s0x the two's complement by the type width, decimal the signed value (unbounded theorems over the model of NewIntFromString/Ident). The model refutes totality on i1 (value -1, KF-05). Tie: differential runs of NewIntFromString and Ident on exhaustive small widths, boundary values of many widths up to i4099, random and entropy-straddling values; the implementation's own hex/decimal choice is fed to the model as the choice function.",
+        "level_note": "trusted: Coq kernel; hand model of const_int.go tied by correspondence; math/big text conversion behaves as decimal/hexadecimal positional notation (validated by the same runs); the entropy heuristic itself is not modelled -- the theorem holds for every choice",
+        "rule": "a case is one (width, value) pushed through Ident and back and through every notation; non-trivial = distinct (width, value)",
+        "trusted": ["math/big SetString/Text are positional notation in base 10 and 16"],
+        "assumptions": [],
+        "open_statements": [],
+        "explanation": "",
+    },
 }
